@@ -59,12 +59,31 @@ CaseRule(role, r) ==
       [] role = "value"     -> \A i \in 1..Len(r) : r[i] \notin LowerSet
       [] OTHER              -> TRUE      \* alternatives and enumerals keep their spelling apart from "-"
 
+\* snake case keeps the words of the name apart: a word ends at a hyphen and where a lower-case letter or a digit is followed by
+\* an upper-case letter (helloWorld, HelloWORLD and hello-world all read hello_world; the generator's own unit test pins this)
+RECURSIVE SnakeFrom(_, _)
+SnakeFrom(a, i) ==
+    IF i > Len(a) THEN <<>>
+    ELSE LET c == a[i]
+             out == IF c = "-" THEN "_" ELSE ToLower(c)
+             boundary == c \in LowerSet \cup Digits /\ i < Len(a) /\ a[i + 1] \in UpperSet
+         IN (IF boundary THEN <<out, "_">> ELSE <<out>>) \o SnakeFrom(a, i + 1)
+Snake(a) == SnakeFrom(a, 1)
+Lowered(r) == [i \in 1..Len(r) |-> ToLower(r[i])]
+\* components and modules are written in snake case, values in upper snake case (an escape prefix aside)
+ExactCase(role, a, r) ==
+    LET body == IF Len(r) >= 3 /\ r[1] \in {"r", "R"} /\ r[2] = "_" /\ Lowered(SubSeq(r, 3, Len(r))) = Snake(a) THEN SubSeq(r, 3, Len(r)) ELSE r IN
+    CASE role \in {"component", "module"} -> body = Snake(a)
+      [] role = "value" -> Lowered(body) = Snake(a)
+      [] OTHER -> TRUE
+
 \* the ASN.1 name is recoverable: strip "_", the escape prefix and case
 Recoverable(a, r) == Norm(r) = Norm(a) \/ (HasEscape(r) /\ Norm(Unescaped(r)) = Norm(a))
 
 Legal(role, a, r, rstr, hasAnnot, annot, astr) ==
     /\ RustIdent(r, rstr)
     /\ CaseRule(role, r)
+    /\ ExactCase(role, a, r)
     /\ Recoverable(a, r)
     /\ (role \in AnnotatedRoles /\ r # a) => (hasAnnot /\ annot = astr)
     /\ hasAnnot => annot = astr
